@@ -246,6 +246,10 @@ def _gen_case(rng, kind):
         if src["kind"] in ("uniform", "rect") and rng.random() < 0.15:
             # the adapter is told its input grid explicitly: the producer's geometry, in another layout
             case["in_grid"] = relayout(rng, src)
+        if rng.random() < 0.15:
+            case["flat"] = True   # the producer publishes flat data (in the memory order of its grid)
+        if dst["kind"] in ("uniform", "rect") and dreq != "consumer" and rng.random() < 0.15:
+            case["fan"] = True    # a second consumer on the same adapter whose (equal) grid has the other memory order
         return case
     d = rng.choice([2, 2, 3])
     mode = rng.choice(["ucells", "upoints", "masked_structured"])
@@ -329,14 +333,34 @@ def run_impl(case, gs, gd, vals, perturb=False):
         else:
             adapter = fm.adapters.RegridLinear(out_mask=out_mask, fill_with_nearest=case["fill"])
         out >> adapter >> inp
+        inp2 = None
+        if case.get("fan"):
+            gd2 = build_grid(dict(case["dst"], order="C" if case["dst"]["order"] == "F" else "F", hist=False))
+            inp2 = fm.Input(name="in2", info=fm.Info(time=None, grid=gd2, units=None, mask=in_mask))
+            adapter >> inp2
         inp.ping()
+        if inp2 is not None:
+            inp2.ping()
         inp.exchange_info()
-        out.push_data(data, T0)
+        if inp2 is not None:
+            inp2.exchange_info()
+        out.push_data(data.flatten(order=gs.order) if case.get("flat") else data, T0)
         got = inp.pull_data(T0)
+        got2 = inp2.pull_data(T0) if inp2 is not None else None
     except Exception as e:  # noqa
         return {"err": err_class(e), "msg": f"{type(e).__name__}: {str(e)[:160]}"}
     mag = got.magnitude[0]
-    return {"vals": np.ma.getdata(mag).astype(float), "mask": np.ma.getmaskarray(mag).copy()}
+    res = {"vals": np.ma.getdata(mag).astype(float), "mask": np.ma.getmaskarray(mag).copy()}
+    if got2 is not None:
+        # (grids that differ in the memory order only index their data alike)
+        mag2 = got2.magnitude[0]
+        m1, m2 = res["mask"], np.ma.getmaskarray(mag2)
+        v2 = np.ma.getdata(mag2).astype(float)
+        if mag2.shape != mag.shape or not np.array_equal(m1, m2) or not np.allclose(res["vals"][~m1], v2[~m1], rtol=0, atol=0, equal_nan=True):
+            # the second consumer's field is what the oracle judges (the first one's is judged in the cases without fan-out)
+            res = {"vals": v2 if v2.shape == res["vals"].shape else res["vals"] * np.nan, "mask": m2 if m2.shape == m1.shape else m1,
+                   "fan_differs": True}
+    return res
 
 
 # --------------------------------------------------------------------------------------
@@ -396,6 +420,9 @@ def oracle(case, gs, gd, vals, impl, cs, cd):
     sidx = [i for i in cs if smask is None or not smask[i]]
     if "err" in impl and case["kind"] == "nearest":
         return ("nearest regridding delivers data for every pair of grids and masks", impl, "nearest-error")
+    if impl.get("fan_differs"):
+        return ("every consumer of one regridding adapter receives the regridded field (their equal grids differ in the memory order only)",
+                {"second_consumer_differs": True}, "fan-out")
     if case["kind"] == "nearest":
         want_mask = dmask if dmask is not None else np.zeros(tuple(int(s) for s in gd.data_shape), bool)
         if not np.array_equal(impl["mask"], want_mask):
